@@ -22,6 +22,9 @@ EXPLANATION = (
 TRUSTED = ["rustc MIR construction"]
 
 
+INPLACE_SET_OPS = ("retain", "retain_mut", "extend", "append", "insert", "remove", "clear", "drain", "take")
+
+
 def run(ctx):
     prog = ctx.prog
     flows = Flows(prog)
@@ -128,13 +131,23 @@ def run(ctx):
         for n in sl0:
             if n[0] == "L" and "Vec<std::collections::HashSet<" in co.local_ty(n[1]) and not co.local_ty(n[1]).startswith("&"):
                 ws = [s for s in co.stmts() if s.k == "assign" and s.lhs.has_deref() and ("L", n[1]) in cf.resolve(s.lhs)]
-                if ws:
-                    cands.append((n[1], ws))
+                # ... or changed in place: `part[i].retain(|m| !set.contains(m))` / `part[i].extend(set.iter().cloned())`
+                ms_calls = [t for t in co.calls() if t.callee and t.callee.short.split("::")[-1] in INPLACE_SET_OPS and t.args and t.args[0].place is not None and "HashSet<" in t.args[0].place.ty and ("L", n[1]) in cf.mut_reach(t.args[0])]
+                if ws or ms_calls:
+                    cands.append((n[1], ws, ms_calls))
     if len(cands) == 1:
-        v, writes = cands[0]
+        v, writes, inplace = cands[0]
         kinds = []
         member_sets = []
         from engines import producers
+
+        for t in inplace:
+            nm = t.callee.short.split("::")[-1]
+            kinds.append("difference" if nm in ("retain", "retain_mut") else ("union" if nm in ("extend", "append") else "other:[%s]" % nm))
+            rd = set()
+            for a in t.args[1:]:
+                rd |= set(cf._op_reads(a))
+            member_sets.append(frozenset(n2 for n2 in cf.slice_local(rd, data_only=True) if n2[0] == "L" and co.local_name(n2[1]) and "HashSet<" in co.local_ty(n2[1]) and not co.local_ty(n2[1]).startswith("std::vec::Vec<")))
 
         for s in writes:
             pr = {x.split("::")[-1] for x in producers(flows, co, s.rv.ops[0])} if s.rv.ops else set()
